@@ -90,6 +90,8 @@ func (c *replacerCompiler) compile(v reflect.Value) Replacer {
 		})
 	case goast.ForStmtPtrType:
 		return c.compileForStmt(v)
+	case goast.StarExprPtrType:
+		return starExprReplacer{Replacer: c.compileGeneric(v)}
 	case goast.CommentGroupPtrType:
 		// TODO: We're currently ignoring comments in the replacement patch.
 		// We should probably record them and report them in the top-level
@@ -117,4 +119,33 @@ type ZeroReplacer struct{ Type reflect.Type }
 // Replace replaces with a zero value.
 func (r ZeroReplacer) Replace(data.Data, Changelog, token.Pos) (reflect.Value, error) {
 	return reflect.Zero(r.Type), nil
+}
+
+// starExprReplacer replaces a StarExpr.
+//
+// go/printer adds the parentheses that operator precedence requires around
+// the operands of other expressions, but not around the operand of a
+// StarExpr, which the parser never leaves without them: "*x" with x standing
+// for "a + b" would be printed as "*a + b".
+type starExprReplacer struct{ Replacer }
+
+func (r starExprReplacer) Replace(d data.Data, cl Changelog, pos token.Pos) (reflect.Value, error) {
+	v, err := r.Replacer.Replace(d, cl, pos)
+	if err != nil {
+		return v, err
+	}
+
+	if star, ok := v.Interface().(*ast.StarExpr); ok && star != nil {
+		star.X = starOperand(star.X)
+	}
+	return v, nil
+}
+
+// starOperand wraps x in parentheses if it needs them to be the operand of a
+// StarExpr.
+func starOperand(x ast.Expr) ast.Expr {
+	if _, ok := x.(*ast.BinaryExpr); !ok {
+		return x
+	}
+	return &ast.ParenExpr{Lparen: x.Pos(), X: x, Rparen: x.End()}
 }
